@@ -790,6 +790,12 @@ def roots_str(roots):
 
 
 def has_root(roots, kind, *rest):
+    # a numeric constant matches a literal and a named constant with that value alike (`6usize` / `const FLAGS_OFFSET = 6`)
+    if kind == "const" and len(rest) == 1 and isinstance(rest[0], int) and not isinstance(rest[0], bool):
+        for r in roots:
+            if r[0] == "const" and (r[1] == rest[0] or (len(r) > 2 and r[-1] == rest[0] and isinstance(r[-1], int))):
+                return True
+        return False
     for r in roots:
         if r[0] != kind:
             continue
